@@ -185,8 +185,14 @@ def atan(q):
     if not _sym(q):
         return _m.atan(q)
     c = ctx()
-    qe = _toreal(q.e)
+    qe = z3.simplify(_toreal(q.e))
+    if z3.is_rational_value(qe):
+        return _m.atan(qe.numerator_as_long() / qe.denominator_as_long())
+    memo = c.memo.setdefault("atan", {})
+    if qe.get_id() in memo:
+        return SymReal(memo[qe.get_id()][1])
     th = c.fresh("real", "atan")
+    memo[qe.get_id()] = (qe, th)
     c.add(th > -PI_UP / 2, th < PI_UP / 2)
     co, si = _cs(SymReal(th))
     c.add(co > 0, si == qe * co)
